@@ -195,21 +195,45 @@ theorem startWith_inv (b : Bool) (s : State) (g : Ghost) (h : Inv s g) : Inv (st
     simp only [Bool.false_eq_true, if_false, r1, r2, t1, t2, t3, List.nil_append]
     omega
 
+/-- the invariant only looks at the pending list and the flights -/
+theorem inv_congr (s s' : State) (g : Ghost) (hp : s'.pending = s.pending) (hf : s'.flights = s.flights)
+    (h : Inv s g) : Inv s' g := by
+  intro a; have := h a; rw [hp, hf]; exact this
+
 theorem loopStart_inv (s : State) (g : Ghost) (h : Inv s g) : Inv (loopStart s).2 g := by
   have := startWith_inv true s g h
   unfold loopStart
   split <;> simpa [*] using this
 
+theorem loopStartTurn_inv (s : State) (g : Ghost) (h : Inv s g) : Inv (loopStartTurn s).2 g := by
+  have h1 := loopStart_inv s g h
+  unfold loopStartTurn
+  simp only
+  split
+  · exact inv_congr _ _ g rfl rfl h1
+  · exact h1
+
+theorem loopTick_inv (s : State) (g : Ghost) (h : Inv s g) : Inv (loopTick s).2 g := by
+  unfold loopTick
+  split
+  · split
+    · exact loopStartTurn_inv _ g (inv_congr _ _ g rfl rfl h)
+    · exact inv_congr _ _ g rfl rfl h
+  · exact h
+
 /-- conservation is kept by every stimulus of the event loop: external trigger, … -/
 theorem loopTrigger_inv (s : State) (g : Ghost) (h : Inv s g) : Inv (loopTrigger s).2 g :=
-  loopStart_inv s g h
+  loopStartTurn_inv _ g (inv_congr _ _ g rfl rfl h)
 
-/-- … a PublishResponse (with the immediate follow-up publish when `more_notifications`), … -/
+/-- … a PublishResponse (with the follow-up publish when `more_notifications`, and the periodic
+publish when it has become due), … -/
 theorem loopComplete_inv (s : State) (g : Ghost) (id sub seq : Nat) (more ka : Bool) (evs : List Ev) (s' : State)
     (h : Inv s g) (hr : loopComplete s id sub seq more ka = some (evs, s')) :
     Inv s' (gstep s g (.complete id sub seq more ka)) := by
   have h1 : Inv (complete s id sub seq more ka).2 (gstep s g (.complete id sub seq more ka)) :=
     step_inv s g (.complete id sub seq more ka) h
+  have h2 : Inv { (complete s id sub seq more ka).2 with waiting := false } (gstep s g (.complete id sub seq more ka)) :=
+    inv_congr _ _ _ rfl rfl h1
   unfold loopComplete at hr
   cases hf : findLoopFlight s id with
   | none => simp [hf] at hr
@@ -218,33 +242,48 @@ theorem loopComplete_inv (s : State) (g : Ghost) (id sub seq : Nat) (more ka : B
     cases more with
     | false =>
       simp only [Bool.false_eq_true, if_false, Option.some.injEq, Prod.mk.injEq] at hr
-      rw [← hr.2]; exact h1
+      rw [← hr.2]
+      exact loopTick_inv _ _ (inv_congr _ _ _ rfl rfl h2)
     | true =>
       simp only [if_true, Option.some.injEq, Prod.mk.injEq] at hr
-      rw [← hr.2]; exact loopStart_inv _ _ h1
+      rw [← hr.2]
+      exact loopTick_inv _ _ (loopStartTurn_inv _ _ (inv_congr _ _ _ rfl rfl h2))
+
+theorem markWaiting_same (s : State) (st : Nat) :
+    (markWaiting s st).pending = s.pending ∧ (markWaiting s st).flights = s.flights ∧
+    (markWaiting s st).connected = s.connected ∧ (markWaiting s st).maxPublish = s.maxPublish ∧
+    (markWaiting s st).nextId = s.nextId ∧ (markWaiting s st).aged = s.aged ∧ (markWaiting s st).subs = s.subs := by
+  unfold markWaiting; split <;> simp
 
 /-- … and a failure (with the immediate re-publish after a timeout). -/
 theorem loopFail_inv (s : State) (g : Ghost) (id : Nat) (k : FailKind) (evs : List Ev) (s' : State)
     (h : Inv s g) (hr : loopFail s id k = some (evs, s')) : Inv s' g := by
-  have h1 : Inv (fail s id k).2 g := step_inv s g (.fail id k) h
+  have h0 : Inv (fail s id k).2 g := step_inv s g (.fail id k) h
+  have hm := markWaiting_same (fail s id k).2 k.status
+  have h1 : Inv (markWaiting (fail s id k).2 k.status) g := inv_congr _ _ g hm.1 hm.2.1 h0
   unfold loopFail at hr
   cases hf : findLoopFlight s id with
   | none => simp [hf] at hr
   | some f =>
     simp only [hf] at hr
-    split at hr
-    · simp only [Option.some.injEq, Prod.mk.injEq] at hr
-      rw [← hr.2]; exact loopStart_inv _ _ h1
-    · simp only [Option.some.injEq, Prod.mk.injEq] at hr
-      rw [← hr.2]; exact h1
+    by_cases hret : k.status = BadTimeout ∧
+        loopLen (markWaiting (fail s id k).2 k.status) < (markWaiting (fail s id k).2 k.status).maxPublish
+    · rw [if_pos hret] at hr
+      simp only [Option.some.injEq, Prod.mk.injEq] at hr
+      rw [← hr.2]
+      exact loopTick_inv _ _ (loopStartTurn_inv _ _ (inv_congr _ _ g rfl rfl h1))
+    · rw [if_neg hret] at hr
+      simp only [Option.some.injEq, Prod.mk.injEq] at hr
+      rw [← hr.2]
+      exact loopTick_inv _ _ (inv_congr _ _ g rfl rfl h1)
 
 /-- **a timed-out publish is retried at once and carries everything that is owed**: when the
-channel is connected and the loop is below its limit, the failure is reported, the very next
-request contains all pending acknowledgements followed by those of the failed request, and nothing
-stays pending. -/
+channel is connected, the loop is below its limit and no periodic publish is due, the failure is
+reported, the very next request contains all pending acknowledgements followed by those of the
+failed request, and nothing stays pending. -/
 theorem timeout_resends_at_once (s : State) (id : Nat) (f : Flight) (hf : findFlight s.flights id = some f)
-    (hl : f.viaLoop = true) (hc : s.connected = true)
-    (hcap : (removeFlight s.flights id).length < s.maxPublish) :
+    (hl : f.viaLoop = true) (hc : s.connected = true) (ha : s.aged = false)
+    (hcap : ((removeFlight s.flights id).filter (fun f => f.viaLoop)).length < s.maxPublish) :
     (loopFail s id .timeout).map (fun r => (r.1, r.2.pending)) =
       some ([.failed BadTimeout,
              .sent s.nextId (if (s.pending ++ acksOf f.taken).isEmpty then none else some (s.pending ++ acksOf f.taken))],
@@ -253,17 +292,26 @@ theorem timeout_resends_at_once (s : State) (id : Nat) (f : Flight) (hf : findFl
   have ⟨r1, r2⟩ := requeue_pending { s with flights := removeFlight s.flights id } f.taken
   have hfail : (fail s id .timeout).2 = requeue { s with flights := removeFlight s.flights id } f.taken := by
     simp [fail, hf]
+  have hmw : markWaiting (fail s id .timeout).2 FailKind.timeout.status = (fail s id .timeout).2 := by
+    unfold markWaiting; rw [if_neg (by decide)]
   have hconn : (fail s id .timeout).2.connected = true := by
     rw [hfail]; cases f.taken <;> simpa [requeue] using hc
   have hmax : (fail s id .timeout).2.maxPublish = s.maxPublish := by
     rw [hfail]; cases f.taken <;> simp [requeue]
   have hnext : (fail s id .timeout).2.nextId = s.nextId := by
     rw [hfail]; cases f.taken <;> simp [requeue]
+  have haged : (fail s id .timeout).2.aged = false := by
+    rw [hfail]; cases f.taken <;> simpa [requeue] using ha
   have hpend : (fail s id .timeout).2.pending = s.pending ++ acksOf f.taken := by rw [hfail]; exact r1
   have hflights : (fail s id .timeout).2.flights = removeFlight s.flights id := by rw [hfail]; exact r2
+  have hlen : loopLen (fail s id .timeout).2 < (fail s id .timeout).2.maxPublish := by
+    simp only [loopLen, hflights, hmax]; exact hcap
   unfold loopFail
-  simp only [hfl, FailKind.status, hflights, hmax, hcap, and_self, if_true, loopStart, startWith, takeAcks,
-    hconn, hpend, hnext, Option.map_some]
+  simp only [hfl, hmw]
+  rw [if_pos ⟨rfl, hlen⟩]
+  simp only [loopStartTurn, loopStart, startWith, takeAcks, newTurn, hconn, hpend, hnext, haged, Bool.false_and,
+    if_true, yielded, loopTick, Bool.false_eq_true, false_and, if_false, Option.map_some, List.append_nil,
+    FailKind.status, List.cons_append, List.nil_append]
 
 /-- non-vacuity: the loop publishes on a trigger, follows `more_notifications`, retries a timeout -/
 example :
